@@ -1,4 +1,1629 @@
 import TT.Model.Fwd
 namespace TT.Fwd
+open TT
+
+/-! ## prefix stability of the two byte-level parsers -/
+
+theorem headEnd_cons (c : Nat) (r : Bytes) :
+    headEnd (c :: r) = if c = 13 ∧ r.take 3 = [10, 13, 10] then some 4 else (headEnd r).map (· + 1) := by
+  split
+  · rename_i h
+    obtain ⟨rfl, h⟩ := h
+    match r, h with
+    | a :: b :: d :: r', h =>
+      simp at h; obtain ⟨rfl, rfl, rfl⟩ := h; simp [headEnd]
+  · rename_i h
+    rw [headEnd.eq_2]
+    intro tail h1 h2; apply h; subst h1 h2; simp
+
+theorem headEnd_le : ∀ (a : Bytes) (p : Nat), headEnd a = some p → p ≤ a.length ∧ 4 ≤ p := by
+  intro a
+  induction a with
+  | nil => intro p h; simp [headEnd] at h
+  | cons c r ih =>
+    intro p h
+    rw [headEnd_cons] at h
+    split at h
+    · rename_i hc
+      simp at h; subst h
+      have : (r.take 3).length = 3 := by rw [hc.2]; rfl
+      simp at this ⊢; omega
+    · simp only [Option.map_eq_some_iff] at h
+      obtain ⟨q, hq, rfl⟩ := h
+      have := ih q hq
+      simp; omega
+
+theorem take3_append (r b : Bytes) (h : 3 ≤ r.length) : (r ++ b).take 3 = r.take 3 := by
+  rw [List.take_append_of_le_length h]
+
+theorem headEnd_append_some : ∀ (a b : Bytes) (p : Nat), headEnd a = some p → headEnd (a ++ b) = some p := by
+  intro a
+  induction a with
+  | nil => intro b p h; simp [headEnd] at h
+  | cons c r ih =>
+    intro b p h
+    rw [headEnd_cons] at h
+    rw [List.cons_append, headEnd_cons]
+    split at h
+    · rename_i hc
+      have : (r.take 3).length = 3 := by rw [hc.2]; rfl
+      rw [take3_append _ _ (by simp at this; omega)]
+      simp [hc, h]
+    · rename_i hc
+      simp only [Option.map_eq_some_iff] at h
+      obtain ⟨q, hq, rfl⟩ := h
+      have hl := headEnd_le r q hq
+      rw [take3_append _ _ (by omega), if_neg hc, ih b q hq]; rfl
+
+/-- a head that completes only with the new bytes ends inside them -/
+theorem headEnd_gt : ∀ (a b : Bytes) (p : Nat), headEnd a = none → headEnd (a ++ b) = some p → a.length < p := by
+  intro a
+  induction a with
+  | nil => intro b p _ h; have := headEnd_le _ _ h; simp; omega
+  | cons c r ih =>
+    intro b p h h'
+    rw [headEnd_cons] at h
+    rw [List.cons_append, headEnd_cons] at h'
+    split at h
+    · simp at h
+    · rename_i hc
+      simp at h
+      split at h'
+      · simp at h'; subst h'
+        rename_i hc'
+        by_cases hl : 3 ≤ r.length
+        · rw [take3_append _ _ hl] at hc'; exact absurd hc' hc
+        · simp; omega
+      · simp only [Option.map_eq_some_iff] at h'
+        obtain ⟨q, hq, rfl⟩ := h'
+        have := ih b q h hq
+        simp; omega
+
+theorem chunkLineRest_cons_ne (size pos : Nat) (e : Bool) (c : Nat) (r : Bytes) (hc : ¬ (c == 13) = true) :
+    chunkLineRest size pos e (c :: r) =
+      if e then chunkLineRest size (pos + 1) true r
+      else if c == 59 then chunkLineRest size (pos + 1) true r else .invalid := by
+  rw [chunkLineRest.eq_def]; simp [hc]
+
+theorem chunkLineRest_append (size : Nat) : ∀ (pos : Nat) (e : Bool) (a b : Bytes),
+    chunkLineRest size pos e a ≠ .incomplete →
+    chunkLineRest size pos e (a ++ b) = chunkLineRest size pos e a := by
+  intro pos e a
+  fun_induction chunkLineRest size pos e a with
+  | case1 => intro b h; simp at h
+  | case2 pos e c hc => intro b h; simp at h
+  | case3 pos e c hc d tail hd => intro b h; simp [chunkLineRest, hc, hd]
+  | case4 pos e c hc d tail hd => intro b h; simp [chunkLineRest, hc, hd]
+  | case5 pos c r hc ih => intro b h; simp only [List.cons_append]; rw [chunkLineRest_cons_ne _ _ _ _ _ hc]; simp; exact ih b h
+  | case6 pos e c r hc he h59 ih => intro b h; simp only [List.cons_append]; rw [chunkLineRest_cons_ne _ _ _ _ _ hc]; simp [he, h59]; exact ih b h
+  | case7 pos e c r hc he h59 => intro b h; simp only [List.cons_append]; rw [chunkLineRest_cons_ne _ _ _ _ _ hc]; simp [he, h59]
+
+theorem chunkLineRest_complete (size : Nat) : ∀ (pos : Nat) (e : Bool) (a : Bytes) (p sz : Nat),
+    chunkLineRest size pos e a = .complete p sz → p ≤ pos + a.length ∧ pos < p ∧ sz = size := by
+  intro pos e a
+  fun_induction chunkLineRest size pos e a with
+  | case1 => intro p sz h; simp at h
+  | case2 pos e c hc => intro p sz h; simp at h
+  | case3 pos e c hc d tail hd => intro p sz h; simp at h; simp; omega
+  | case4 pos e c hc d tail hd => intro p sz h; simp at h
+  | case5 pos c r hc ih => intro p sz h; have := ih p sz h; simp; omega
+  | case6 pos e c r hc he h59 ih => intro p sz h; have := ih p sz h; simp; omega
+  | case7 pos e c r hc he h59 => intro p sz h; simp at h
+
+theorem chunkLineRest_gt (size : Nat) : ∀ (pos : Nat) (e : Bool) (a b : Bytes) (p sz : Nat),
+    chunkLineRest size pos e a = .incomplete →
+    chunkLineRest size pos e (a ++ b) = .complete p sz → pos + a.length < p := by
+  intro pos e a
+  fun_induction chunkLineRest size pos e a with
+  | case1 pos e => intro b p sz _ h; have := chunkLineRest_complete _ _ _ _ _ _ h; simp; omega
+  | case2 pos e c hc =>
+    intro b p sz _ h
+    cases b with
+    | nil => simp [chunkLineRest, hc] at h
+    | cons d b =>
+      simp [chunkLineRest, hc] at h
+      split at h
+      · simp at h; simp; omega
+      · simp at h
+  | case3 pos e c hc d tail hd => intro b p sz h; simp at h
+  | case4 pos e c hc d tail hd => intro b p sz h; simp at h
+  | case5 pos c r hc ih =>
+    intro b p sz h h'
+    simp only [List.cons_append] at h'; rw [chunkLineRest_cons_ne _ _ _ _ _ hc] at h'; simp at h'
+    have := ih b p sz h h'; simp; omega
+  | case6 pos e c r hc he h59 ih =>
+    intro b p sz h h'
+    simp only [List.cons_append] at h'; rw [chunkLineRest_cons_ne _ _ _ _ _ hc] at h'; simp [he, h59] at h'
+    have := ih b p sz h h'; simp; omega
+  | case7 pos e c r hc he h59 => intro b p sz h; simp at h
+
+theorem chunkDigits_cons (n size pos c : Nat) (r : Bytes) :
+    chunkDigits n size pos (c :: r) =
+      match hexDigitVal c with
+      | some d => if n ≥ 16 then .invalid else chunkDigits (n + 1) (size * 16 + d) (pos + 1) r
+      | none => if n == 0 then .invalid else chunkLineRest size pos false (c :: r) := by
+  rw [chunkDigits.eq_def]
+  rfl
+
+theorem chunkDigits_append : ∀ (n size pos : Nat) (a b : Bytes),
+    chunkDigits n size pos a ≠ .incomplete →
+    chunkDigits n size pos (a ++ b) = chunkDigits n size pos a := by
+  intro n size pos a
+  fun_induction chunkDigits n size pos a with
+  | case1 => intro b h; simp at h
+  | case2 n size pos c r d hd hn => intro b _; simp [chunkDigits_cons, hd, hn]
+  | case3 n size pos c r d hd hn ih => intro b h; simp [chunkDigits_cons, hd, hn]; exact ih b h
+  | case4 n size pos c r hd hn => intro b _; simp [chunkDigits_cons, hd, hn]
+  | case5 n size pos c r hd hn =>
+    intro b h; simp only [List.cons_append, chunkDigits_cons, hd, hn]
+    exact chunkLineRest_append _ _ _ (c :: r) b h
+
+theorem chunkDigits_complete : ∀ (n size pos : Nat) (a : Bytes) (p sz : Nat),
+    chunkDigits n size pos a = .complete p sz → p ≤ pos + a.length ∧ pos < p := by
+  intro n size pos a
+  fun_induction chunkDigits n size pos a with
+  | case1 => intro p sz h; simp at h
+  | case2 n size pos c r d hd hn => intro p sz h; simp at h
+  | case3 n size pos c r d hd hn ih => intro p sz h; have := ih p sz h; simp; omega
+  | case4 n size pos c r hd hn => intro p sz h; simp at h
+  | case5 n size pos c r hd hn =>
+    intro p sz h; have := chunkLineRest_complete _ _ _ _ _ _ h; omega
+
+theorem chunkDigits_gt : ∀ (n size pos : Nat) (a b : Bytes) (p sz : Nat),
+    chunkDigits n size pos a = .incomplete →
+    chunkDigits n size pos (a ++ b) = .complete p sz → pos + a.length < p := by
+  intro n size pos a
+  fun_induction chunkDigits n size pos a with
+  | case1 n size pos => intro b p sz _ h; have := chunkDigits_complete _ _ _ _ _ _ h; simp; omega
+  | case2 n size pos c r d hd hn => intro b p sz h; simp at h
+  | case3 n size pos c r d hd hn ih =>
+    intro b p sz h h'
+    simp [chunkDigits_cons, hd, hn] at h'
+    have := ih b p sz h h'; simp; omega
+  | case4 n size pos c r hd hn => intro b p sz h; simp at h
+  | case5 n size pos c r hd hn =>
+    intro b p sz h h'
+    simp only [List.cons_append, chunkDigits_cons, hd, hn] at h'
+    exact chunkLineRest_gt _ _ _ (c :: r) b p sz h h'
+
+theorem parseChunkSize_append (a b : Bytes) (h : parseChunkSize a ≠ .incomplete) :
+    parseChunkSize (a ++ b) = parseChunkSize a := chunkDigits_append _ _ _ a b h
+
+theorem parseChunkSize_complete (a : Bytes) (p sz : Nat) (h : parseChunkSize a = .complete p sz) :
+    p ≤ a.length ∧ 0 < p := by
+  have := chunkDigits_complete _ _ _ _ _ _ h; omega
+
+theorem parseChunkSize_gt (a b : Bytes) (p sz : Nat) (h : parseChunkSize a = .incomplete)
+    (h' : parseChunkSize (a ++ b) = .complete p sz) : a.length < p := by
+  have := chunkDigits_gt _ _ _ _ _ _ _ h h'; omega
+
+/-! ## the parser without the client-side sink's throttling: `Core`, `stepU`, `D` -/
+
+/-- what is left of a `Sink` when quotas, `fakeUnsent` and `failed` are forgotten -/
+structure Core where
+  phase : Phase
+  client : Client
+
+def Sink.core (s : Sink) : Core := ⟨s.phase, s.client⟩
+
+def cEof (cl : Client) : Client := { cl with eofs := cl.eofs ++ [cl.body.length] }
+
+/-- `Sink.write` for a client-side sink that takes everything; a dead sink absorbs silently -/
+def stepU (ver : Ver) (method : Bytes) (c : Core) (data : Bytes) : Core × Bytes :=
+  match c.phase with
+  | .idle => (c, [])
+  | .waitingResponse buf =>
+    let d := buf ++ data
+    match headEnd d with
+    | none => (⟨.waitingResponse d, c.client⟩, [])
+    | some pos =>
+      match parseHeadBytes (d.take pos) with
+      | none => (⟨.idle, { c.client with bad := true }⟩, [])
+      | some h =>
+        match convertResponse ver method h with
+        | none => (⟨.idle, { c.client with bad := true }⟩, [])
+        | some (kept, bl) =>
+          if 100 ≤ h.status ∧ h.status < 200 then
+            (⟨.waitingResponse [],
+              if ver.isH1 then { c.client with interims := c.client.interims ++ [h.status] } else c.client⟩,
+             d.drop pos)
+          else
+            (⟨match bl with
+              | some .chunked => Phase.chunkPrefix []
+              | some (.determined n) => .nonEncoded (some n) 0
+              | none => .nonEncoded none 0,
+              { c.client with head := some (h.status, bl == some (.determined 0), kept) }⟩, d.drop pos)
+  | .nonEncoded (some n) sent =>
+    if n ≤ sent then (⟨.idle, c.client⟩, [])
+    else
+      let k := min data.length (n - sent)
+      let cl := { c.client with body := c.client.body ++ data.take k }
+      (⟨.nonEncoded (some n) (sent + k), if sent + k = n then cEof cl else cl⟩, data.drop k)
+  | .nonEncoded none sent =>
+    (⟨.nonEncoded none (sent + data.length), { c.client with body := c.client.body ++ data }⟩, [])
+  | .chunkPrefix buf =>
+    let d := buf ++ data
+    match parseChunkSize d with
+    | .incomplete => (⟨.chunkPrefix d, c.client⟩, [])
+    | .invalid => (⟨.idle, c.client⟩, [])
+    | .complete pos size =>
+      (⟨if size = 0 then .chunkSuffix [] true else .chunkBody size, c.client⟩, d.drop pos)
+  | .chunkBody remaining =>
+    let k := min data.length remaining
+    (⟨if remaining - k > 0 then .chunkBody (remaining - k) else .chunkSuffix [] false,
+      { c.client with body := c.client.body ++ data.take k }⟩, data.drop k)
+  | .chunkSuffix buf terminating =>
+    let need := 2 - buf.length
+    let suffix := buf ++ data.take need
+    if suffix != [13, 10].take suffix.length then (⟨.idle, c.client⟩, [])
+    else if suffix.length < 2 then (⟨.chunkSuffix suffix terminating, c.client⟩, data.drop need)
+    else if terminating then (⟨.idle, cEof c.client⟩, [])
+    else (⟨.chunkPrefix [], c.client⟩, data.drop need)
+
+/-- the whole of `d` through the unthrottled parser -/
+def D (ver : Ver) (method : Bytes) (c : Core) (d : Bytes) : Core :=
+  match d with
+  | [] => c
+  | x :: r =>
+    if (stepU ver method c (x :: r)).2.length < (x :: r).length then
+      D ver method (stepU ver method c (x :: r)).1 (stepU ver method c (x :: r)).2
+    else (stepU ver method c (x :: r)).1
+termination_by d.length
+
+/-- what the buffered phases guarantee about their buffers -/
+def CI (c : Core) : Prop :=
+  match c.phase with
+  | .waitingResponse buf => headEnd buf = none
+  | .chunkPrefix buf => parseChunkSize buf = .incomplete
+  | .chunkBody r => 0 < r
+  | .chunkSuffix buf _ => buf = [] ∨ buf = [13]
+  | _ => True
+
+theorem stepU_CI (ver : Ver) (method : Bytes) (c : Core) (d : Bytes) (h : CI c) :
+    CI (stepU ver method c d).1 := by
+  obtain ⟨phase, cl⟩ := c
+  cases phase with
+  | idle => simp [stepU, CI]
+  | waitingResponse buf =>
+    simp only [stepU]
+    split
+    · simpa [CI]
+    · split
+      · simp [CI]
+      · split
+        · simp [CI]
+        · split
+          · simp [CI, headEnd]
+          · rename_i kept bl _ _
+            rcases bl with _ | _ | _ <;> simp [CI, parseChunkSize, chunkDigits]
+  | nonEncoded len sent =>
+    cases len <;> simp only [stepU]
+    · simp [CI]
+    · split <;> simp [CI]
+  | chunkPrefix buf =>
+    simp only [stepU]
+    split
+    · simpa [CI]
+    · simp [CI]
+    · rename_i pos size _
+      by_cases hs : size = 0 <;> simp [CI, hs]; omega
+  | chunkBody r =>
+    simp only [stepU]
+    split <;> simp [CI]; omega
+  | chunkSuffix buf t =>
+    simp only [stepU]
+    simp only [CI] at h
+    split
+    · simp [CI]
+    · split
+      · rename_i h1 h2
+        simp only [CI]
+        rcases h with rfl | rfl
+        · rcases d with _ | ⟨x, _ | ⟨y, r⟩⟩ <;> simp_all
+        · rcases d with _ | ⟨x, r⟩ <;> simp_all
+      · split <;> simp [CI, parseChunkSize, chunkDigits]
+
+theorem stepU_shrink (ver : Ver) (method : Bytes) (c : Core) (d : Bytes) (h : CI c) (hd : d ≠ []) :
+    (stepU ver method c d).2.length < d.length := by
+  have hpos : 0 < d.length := List.length_pos_iff.mpr hd
+  obtain ⟨phase, cl⟩ := c
+  cases phase with
+  | idle => simpa [stepU]
+  | waitingResponse buf =>
+    simp only [stepU]
+    simp only [CI] at h
+    split
+    · simpa
+    · rename_i pos hp
+      have := headEnd_gt _ _ _ h hp
+      split
+      · simpa
+      · split
+        · simpa
+        · split <;> simp <;> omega
+  | nonEncoded len sent =>
+    cases len <;> simp only [stepU]
+    · simpa
+    · split
+      · simpa
+      · simp; omega
+  | chunkPrefix buf =>
+    simp only [stepU]
+    simp only [CI] at h
+    split
+    · simpa
+    · simpa
+    · rename_i pos size hp
+      have := parseChunkSize_gt _ _ _ _ h hp
+      simp; omega
+  | chunkBody r =>
+    simp only [stepU]
+    simp only [CI] at h
+    simp; omega
+  | chunkSuffix buf t =>
+    simp only [stepU]
+    simp only [CI] at h
+    have : buf.length < 2 := by rcases h with rfl | rfl <;> simp
+    split
+    · simpa
+    · split
+      · simp; omega
+      · split <;> simp <;> omega
+
+theorem D_nil (ver : Ver) (method : Bytes) (c : Core) : D ver method c [] = c := by
+  rw [D]
+
+theorem D_step (ver : Ver) (method : Bytes) (c : Core) (d : Bytes) (h : CI c) (hd : d ≠ []) :
+    D ver method c d = D ver method (stepU ver method c d).1 (stepU ver method c d).2 := by
+  cases d with
+  | nil => exact absurd rfl hd
+  | cons x r =>
+    rw [D]
+    rw [if_pos (stepU_shrink ver method c (x :: r) h hd)]
+
+theorem D_CI (ver : Ver) (method : Bytes) : ∀ (n : Nat) (c : Core) (d : Bytes), d.length ≤ n → CI c →
+    CI (D ver method c d) := by
+  intro n
+  induction n with
+  | zero => intro c d hd h; cases d with
+    | nil => rwa [D_nil]
+    | cons _ _ => simp at hd
+  | succ n ih =>
+    intro c d hd h
+    by_cases hd' : d = []
+    · subst hd'; rwa [D_nil]
+    · rw [D_step _ _ _ _ h hd']
+      have := stepU_shrink ver method c d h hd'
+      exact ih _ _ (by omega) (stepU_CI _ _ _ _ h)
+
+/-- how one unthrottled `write` on `a ++ b` relates to the `write` on `a` -/
+def StepApp (ver : Ver) (method : Bytes) (c : Core) (a b : Bytes) : Prop :=
+  stepU ver method c (a ++ b) = ((stepU ver method c a).1, (stepU ver method c a).2 ++ b) ∨
+  ((stepU ver method c a).2 = [] ∧
+    stepU ver method c (a ++ b) = stepU ver method (stepU ver method c a).1 b)
+
+theorem stepApp_idle (ver : Ver) (method : Bytes) (cl : Client) (a b : Bytes) :
+    StepApp ver method ⟨.idle, cl⟩ a b := by
+  right; simp [stepU]
+
+theorem stepApp_waiting (ver : Ver) (method : Bytes) (cl : Client) (buf a b : Bytes) :
+    StepApp ver method ⟨.waitingResponse buf, cl⟩ a b := by
+  unfold StepApp
+  cases hh : headEnd (buf ++ a) with
+  | none =>
+    right
+    simp [stepU, hh]
+  | some pos =>
+    have h1 := headEnd_append_some _ b _ hh
+    have h2 := (headEnd_le _ _ hh).1
+    have ht : List.take pos (buf ++ a ++ b) = List.take pos (buf ++ a) := List.take_append_of_le_length h2
+    have hd : List.drop pos (buf ++ a ++ b) = List.drop pos (buf ++ a) ++ b := List.drop_append_of_le_length h2
+    simp only [stepU, ← List.append_assoc, h1, hh, ht, hd]
+    split
+    · right; simp
+    · split
+      · right; simp
+      · split
+        · left; rfl
+        · left; rfl
+
+theorem stepApp_nonEncodedNone (ver : Ver) (method : Bytes) (cl : Client) (sent : Nat) (a b : Bytes) :
+    StepApp ver method ⟨.nonEncoded none sent, cl⟩ a b := by
+  right; simp [stepU, Nat.add_assoc]
+
+theorem stepApp_nonEncodedSome (ver : Ver) (method : Bytes) (cl : Client) (n sent : Nat) (a b : Bytes) :
+    StepApp ver method ⟨.nonEncoded (some n) sent, cl⟩ a b := by
+  unfold StepApp
+  by_cases hn : n ≤ sent
+  · right; simp [stepU, hn]
+  · by_cases hl : a.length < n - sent
+    · right
+      have h1 : min a.length (n - sent) = a.length := by omega
+      have h2 : ¬ sent + a.length = n := by omega
+      have h3 : ¬ n ≤ sent + a.length := by omega
+      have h4 : min (a.length + b.length) (n - sent) = a.length + min b.length (n - (sent + a.length)) := by omega
+      simp only [stepU, hn, if_false, h1, h2, h3, List.length_append, h4]
+      have h6 : ∀ m, List.take (a.length + m) a = a := fun m => List.take_of_length_le (by omega)
+      simp [List.take_append, List.drop_append, Nat.add_assoc, cEof, h6]
+    · left
+      have h1 : min a.length (n - sent) = n - sent := by omega
+      have h4 : min (a.length + b.length) (n - sent) = n - sent := by omega
+      simp only [stepU, hn, if_false, h1, List.length_append, h4]
+      rw [List.take_append_of_le_length (by omega), List.drop_append_of_le_length (by omega)]
+
+theorem stepApp_chunkPrefix (ver : Ver) (method : Bytes) (cl : Client) (buf a b : Bytes) :
+    StepApp ver method ⟨.chunkPrefix buf, cl⟩ a b := by
+  unfold StepApp
+  cases hh : parseChunkSize (buf ++ a) with
+  | incomplete =>
+    right
+    simp [stepU, hh]
+  | invalid =>
+    right
+    have h1 := parseChunkSize_append _ b (by rw [hh]; simp)
+    simp [stepU, ← List.append_assoc, h1, hh]
+  | complete pos size =>
+    left
+    have h1 := parseChunkSize_append _ b (by rw [hh]; simp)
+    have h2 := (parseChunkSize_complete _ _ _ hh).1
+    have hd : List.drop pos (buf ++ a ++ b) = List.drop pos (buf ++ a) ++ b := List.drop_append_of_le_length h2
+    simp only [stepU, ← List.append_assoc, h1, hh, hd]
+
+theorem stepApp_chunkBody (ver : Ver) (method : Bytes) (cl : Client) (r : Nat) (a b : Bytes) (_hr : 0 < r) :
+    StepApp ver method ⟨.chunkBody r, cl⟩ a b := by
+  unfold StepApp
+  by_cases hl : a.length < r
+  · right
+    have h1 : min a.length r = a.length := by omega
+    have h2 : r - a.length > 0 := by omega
+    have h4 : min (a.length + b.length) r = a.length + min b.length (r - a.length) := by omega
+    have h5 : r - (a.length + min b.length (r - a.length)) = r - a.length - min b.length (r - a.length) := by omega
+    simp only [stepU, h1, h2, if_true, List.length_append, h4, h5]
+    have h6 : ∀ m, List.take (a.length + m) a = a := fun m => List.take_of_length_le (by omega)
+    simp [List.take_append, List.drop_append, h6]
+  · left
+    have h1 : min a.length r = r := by omega
+    have h4 : min (a.length + b.length) r = r := by omega
+    simp only [stepU, h1, List.length_append, h4]
+    rw [List.take_append_of_le_length (by omega), List.drop_append_of_le_length (by omega)]
+
+theorem stepApp_chunkSuffix (ver : Ver) (method : Bytes) (cl : Client) (buf : Bytes) (t : Bool) (a b : Bytes)
+    (hb : buf = [] ∨ buf = [13]) (ha : a ≠ []) (hb' : b ≠ []) :
+    StepApp ver method ⟨.chunkSuffix buf t, cl⟩ a b := by
+  unfold StepApp
+  obtain ⟨y, b, rfl⟩ := List.exists_cons_of_ne_nil hb'
+  rcases hb with rfl | rfl
+  · rcases a with _ | ⟨x, _ | ⟨x', a⟩⟩
+    · exact absurd rfl ha
+    · by_cases hx : x = 13
+      · right; subst hx
+        simp [stepU]
+      · right
+        simp [stepU, hx]
+    · by_cases hx : x = 13 ∧ x' = 10
+      · obtain ⟨rfl, rfl⟩ := hx
+        cases t
+        · left; simp [stepU]
+        · right; simp [stepU]
+      · right
+        have : ¬ (x = 13 ∧ x' = 10) := hx
+        simp [stepU, this]
+  · rcases a with _ | ⟨x, a⟩
+    · exact absurd rfl ha
+    · by_cases hx : x = 10
+      · subst hx
+        cases t
+        · left; simp [stepU]
+        · right; simp [stepU]
+      · right
+        simp [stepU, hx]
+
+theorem stepU_append (ver : Ver) (method : Bytes) (c : Core) (a b : Bytes) (h : CI c) (ha : a ≠ []) (hb : b ≠ []) :
+    StepApp ver method c a b := by
+  obtain ⟨phase, cl⟩ := c
+  cases phase with
+  | idle => exact stepApp_idle ..
+  | waitingResponse buf => exact stepApp_waiting ..
+  | nonEncoded len sent =>
+    cases len
+    · exact stepApp_nonEncodedNone ..
+    · exact stepApp_nonEncodedSome ..
+  | chunkPrefix buf => exact stepApp_chunkPrefix ..
+  | chunkBody r => exact stepApp_chunkBody _ _ _ _ _ _ h
+  | chunkSuffix buf t => exact stepApp_chunkSuffix _ _ _ _ _ _ _ h ha hb
+
+/-- **segmentation does not matter** to the unthrottled parser -/
+theorem D_append (ver : Ver) (method : Bytes) : ∀ (n : Nat) (c : Core) (a b : Bytes), a.length ≤ n → CI c →
+    D ver method (D ver method c a) b = D ver method c (a ++ b) := by
+  intro n
+  induction n with
+  | zero =>
+    intro c a b ha _
+    cases a with
+    | nil => simp [D_nil]
+    | cons _ _ => simp at ha
+  | succ n ih =>
+    intro c a b hl h
+    by_cases ha : a = []
+    · subst ha; simp [D_nil]
+    by_cases hb : b = []
+    · subst hb; simp [D_nil]
+    have hab : a ++ b ≠ [] := by simp [ha]
+    have hs := stepU_shrink ver method c a h ha
+    have hci := stepU_CI ver method c a h
+    rw [D_step _ _ c a h ha, D_step _ _ c (a ++ b) h hab]
+    rcases stepU_append ver method c a b h ha hb with h1 | ⟨h1, h2⟩
+    · rw [h1]
+      exact ih _ _ _ (by omega) hci
+    · rw [h1, D_nil, h2, ← D_step _ _ _ _ hci hb]
+
+set_option linter.unusedSimpArgs false
+
+/-! ## `Sink.write` with any acceptance script against the unthrottled parser -/
+
+structure Inv (s : Sink) : Prop where
+  flag : s.fakeUnsent = false
+  ci : CI s.core
+  dead : s.failed = true → s.phase = .idle
+
+structure WritePost (s : Sink) (d : Bytes) (r : Sink × Bytes) : Prop where
+  ver : r.1.ver = s.ver
+  method : r.1.method = s.method
+  sem : D s.ver s.method r.1.core r.2 = D s.ver s.method s.core d
+  ci : CI r.1.core
+  dead : r.1.failed = true → r.1.phase = .idle ∧ r.2 = []
+  flag : r.2 = [] → r.1.fakeUnsent = false
+  go : r.2 ≠ [] → r.1.fakeUnsent = true ∨ r.1.phase ≠ .idle
+  fuel : r.2.length + r.1.quotas.length < d.length + s.quotas.length
+
+theorem WritePost.of_step (s : Sink) (d : Bytes) (r : Sink × Bytes) (hi : Inv s) (hd : d ≠ [])
+    (hv : r.1.ver = s.ver) (hm : r.1.method = s.method) (hq : r.1.quotas = s.quotas)
+    (h1 : r.1.core = (stepU s.ver s.method s.core d).1) (h2 : r.2 = (stepU s.ver s.method s.core d).2)
+    (dead : r.1.failed = true → r.1.phase = .idle ∧ r.2 = [])
+    (flag : r.2 = [] → r.1.fakeUnsent = false)
+    (go : r.2 ≠ [] → r.1.fakeUnsent = true ∨ r.1.phase ≠ .idle) : WritePost s d r where
+  ver := hv
+  method := hm
+  sem := by rw [h1, h2, ← D_step _ _ _ _ hi.ci hd]
+  ci := by rw [h1]; exact stepU_CI _ _ _ _ hi.ci
+  dead := dead
+  flag := flag
+  go := go
+  fuel := by rw [h2, hq]; have := stepU_shrink s.ver s.method s.core d hi.ci hd; omega
+
+theorem write_idle (s : Sink) (d : Bytes) (hi : Inv s) (hd : d ≠ []) (hp : s.phase = .idle) :
+    WritePost s d (s.write d) := by
+  have hf := hi.flag
+  apply WritePost.of_step s d _ hi hd <;> simp [Sink.write, hp, fail, stepU, Sink.core, hf]
+
+theorem write_waiting (s : Sink) (d : Bytes) (hi : Inv s) (hd : d ≠ []) (buf : Bytes)
+    (hp : s.phase = .waitingResponse buf) :
+    WritePost s d (s.write d) := by
+  have hf := hi.flag
+  have hdead := hi.dead
+  simp only [hp] at hdead
+  have hnf : s.failed = false := by cases h : s.failed <;> simp_all
+  cases hh : headEnd (buf ++ d) with
+  | none => apply WritePost.of_step s d _ hi hd <;> simp [Sink.write, hp, stepU, Sink.core, hh, hf, hnf]
+  | some pos =>
+    cases hph : parseHeadBytes (List.take pos (buf ++ d)) with
+    | none => apply WritePost.of_step s d _ hi hd <;> simp [Sink.write, hp, stepU, Sink.core, hh, hph, hf, fail]
+    | some h =>
+      cases hc : convertResponse s.ver s.method h with
+      | none => apply WritePost.of_step s d _ hi hd <;> simp [Sink.write, hp, stepU, Sink.core, hh, hph, hc, hf, fail]
+      | some kb =>
+        obtain ⟨kept, bl⟩ := kb
+        by_cases h1 : 100 ≤ h.status ∧ h.status < 200
+        · apply WritePost.of_step s d _ hi hd <;> simp [Sink.write, hp, stepU, Sink.core, hh, hph, hc, hf, hnf, h1]
+        · rcases bl with _ | _ | _ <;>
+          · apply WritePost.of_step s d _ hi hd <;> simp [Sink.write, hp, stepU, Sink.core, hh, hph, hc, hnf, h1]
+
+theorem write_chunkPrefix (s : Sink) (d : Bytes) (hi : Inv s) (hd : d ≠ []) (buf : Bytes)
+    (hp : s.phase = .chunkPrefix buf) :
+    WritePost s d (s.write d) := by
+  have hf := hi.flag
+  have hdead := hi.dead
+  simp only [hp] at hdead
+  have hnf : s.failed = false := by cases h : s.failed <;> simp_all
+  cases hh : parseChunkSize (buf ++ d) with
+  | incomplete => apply WritePost.of_step s d _ hi hd <;> simp [Sink.write, hp, stepU, Sink.core, hh, hf, hnf]
+  | invalid => apply WritePost.of_step s d _ hi hd <;> simp [Sink.write, hp, stepU, Sink.core, hh, hf, hnf, fail]
+  | complete pos size =>
+    by_cases hs : size = 0
+    · apply WritePost.of_step s d _ hi hd <;> simp [Sink.write, hp, stepU, Sink.core, hh, hnf, hs]
+    · apply WritePost.of_step s d _ hi hd <;> simp [Sink.write, hp, stepU, Sink.core, hh, hnf, hs]
+
+theorem write_chunkSuffix (s : Sink) (d : Bytes) (hi : Inv s) (hd : d ≠ []) (buf : Bytes) (t : Bool)
+    (hp : s.phase = .chunkSuffix buf t) :
+    WritePost s d (s.write d) := by
+  have hf := hi.flag
+  have hdead := hi.dead
+  simp only [hp] at hdead
+  have hnf : s.failed = false := by cases h : s.failed <;> simp_all
+  by_cases h1 : (buf ++ d.take (2 - buf.length) != [13, 10].take (buf ++ d.take (2 - buf.length)).length) = true
+  · apply WritePost.of_step s d _ hi hd <;> simp only [Sink.write, hp, stepU, Sink.core, h1, if_true] <;> simp [fail, hf]
+  · by_cases h2 : (buf ++ d.take (2 - buf.length)).length < 2
+    · apply WritePost.of_step s d _ hi hd <;> simp only [Sink.write, hp, stepU, Sink.core, h1, h2, if_true, if_false] <;> simp [fail, hf, hnf]
+    · cases t
+      · apply WritePost.of_step s d _ hi hd <;> simp only [Sink.write, hp, stepU, Sink.core, h1, h2, if_true, if_false] <;> simp [fail, hf, hnf]
+      · apply WritePost.of_step s d _ hi hd <;> simp only [Sink.write, hp, stepU, Sink.core, h1, h2, if_true, if_false] <;> simp [fail, hf, hnf, clientEof, cEof]
+
+set_option linter.unusedSimpArgs false
+
+theorem takeQuota_spec (qs : List Nat) (n : Nat) :
+    (takeQuota qs n).1 ≤ n ∧ ((takeQuota qs n).1 = n ∨ (takeQuota qs n).2.length < qs.length) ∧
+      (takeQuota qs n).2.length ≤ qs.length := by
+  cases qs with
+  | nil => simp [takeQuota]
+  | cons q r => simp [takeQuota]; omega
+
+theorem sem_of_take (ver : Ver) (method : Bytes) (c c' : Core) (d : Bytes) (k : Nat) (h : CI c) (hk : 0 < k)
+    (hkd : k ≤ d.length) (hs : stepU ver method c (d.take k) = (c', [])) :
+    D ver method c' (d.drop k) = D ver method c d := by
+  have hne : d.take k ≠ [] := by
+    intro h0
+    have := congrArg List.length h0
+    rw [List.length_take, List.length_nil] at this; omega
+  have h1 : D ver method c (d.take k) = c' := by
+    rw [D_step _ _ _ _ h hne, hs, D_nil]
+  conv => rhs; rw [← List.take_append_drop k d]
+  rw [← D_append ver method _ c _ _ (Nat.le_refl _) h, h1]
+
+theorem write_chunkBody (s : Sink) (d : Bytes) (hi : Inv s) (hd : d ≠ []) (rem : Nat)
+    (hp : s.phase = .chunkBody rem) :
+    WritePost s d (s.write d) := by
+  have hf := hi.flag
+  have hdead := hi.dead
+  have hci := hi.ci
+  simp only [hp] at hdead
+  simp only [CI, Sink.core, hp] at hci
+  have hnf : s.failed = false := by cases h : s.failed <;> simp_all
+  have hpos : 0 < d.length := List.length_pos_iff.mpr hd
+  simp only [Sink.write, hp, clientWrite]
+  have hlen : (List.take (min d.length rem) d).length = min d.length rem := by simp
+  rw [hlen]
+  have hq := takeQuota_spec s.quotas (min d.length rem)
+  generalize takeQuota s.quotas (min d.length rem) = tq at hq
+  obtain ⟨k, qs⟩ := tq
+  simp only at hq ⊢
+  have htt : List.take k (List.take (min d.length rem) d) = List.take k d := by
+    rw [List.take_take]; congr 1; omega
+  rw [htt]
+  refine ⟨rfl, rfl, ?_, ?_, ?_, ?_, ?_, ?_⟩
+  · by_cases hk : k = 0
+    · subst hk; simp [Sink.core, hci, hp]
+    · apply sem_of_take _ _ _ _ _ _ hi.ci (by omega) (by omega)
+      have h1 : min (min k d.length) rem = min k d.length := by omega
+      have h2 : min k d.length = k := by omega
+      have h3 : min k rem = k := by omega
+      simp [Sink.core, hp, stepU, h1, h2, h3, List.take_take]
+  · simp only [Sink.core]
+    split
+    · simp only [CI]; omega
+    · simp [CI]
+  · simp [hnf]
+  · simp; omega
+  · simp only [ne_eq, List.drop_eq_nil_iff, Nat.not_le]
+    intro hlt
+    by_cases hk : k = min d.length rem
+    · left; simp [hk, hlt]; omega
+    · right; have : rem - k > 0 := by omega
+      simp [this]
+  · simp; omega
+
+theorem write_nonEncodedNone (s : Sink) (d : Bytes) (hi : Inv s) (hd : d ≠ []) (sent : Nat)
+    (hp : s.phase = .nonEncoded none sent) :
+    WritePost s d (s.write d) := by
+  have hf := hi.flag
+  have hdead := hi.dead
+  simp only [hp] at hdead
+  have hnf : s.failed = false := by cases h : s.failed <;> simp_all
+  have hpos : 0 < d.length := List.length_pos_iff.mpr hd
+  have hde : d.isEmpty = false := by cases d <;> simp_all
+  simp only [Sink.write, hp, clientWrite, hde]
+  have hq := takeQuota_spec s.quotas d.length
+  generalize takeQuota s.quotas d.length = tq at hq
+  obtain ⟨k, qs⟩ := tq
+  simp only at hq ⊢
+  refine ⟨rfl, rfl, ?_, ?_, ?_, ?_, ?_, ?_⟩
+  · by_cases hk : k = 0
+    · subst hk; simp [Sink.core, hp]
+    · apply sem_of_take _ _ _ _ _ _ hi.ci (by omega) (by omega)
+      have h2 : min k d.length = k := by omega
+      simp [Sink.core, hp, stepU, h2]
+  · simp [Sink.core, CI]
+  · simp [hnf]
+  · simp [hf]
+  · simp
+  · simp; omega
+
+theorem write_nonEncodedSome (s : Sink) (d : Bytes) (hi : Inv s) (hd : d ≠ []) (n sent : Nat)
+    (hp : s.phase = .nonEncoded (some n) sent) :
+    WritePost s d (s.write d) := by
+  have hf := hi.flag
+  have hdead := hi.dead
+  simp only [hp] at hdead
+  have hnf : s.failed = false := by cases h : s.failed <;> simp_all
+  have hpos : 0 < d.length := List.length_pos_iff.mpr hd
+  by_cases hn : n ≤ sent
+  · apply WritePost.of_step s d _ hi hd <;> simp [Sink.write, hp, stepU, Sink.core, hn, hf, fail]
+  · have h0 : (min d.length (n - sent) == 0) = false := by
+      have : min d.length (n - sent) ≠ 0 := by omega
+      simpa using this
+    simp only [Sink.write, hp, clientWrite, hn, if_false, h0]
+    have hlen : (List.take (min d.length (n - sent)) d).length = min d.length (n - sent) := by simp
+    rw [hlen]
+    have hq := takeQuota_spec s.quotas (min d.length (n - sent))
+    generalize takeQuota s.quotas (min d.length (n - sent)) = tq at hq
+    obtain ⟨k, qs⟩ := tq
+    simp only at hq ⊢
+    have htt : List.take k (List.take (min d.length (n - sent)) d) = List.take k d := by
+      rw [List.take_take]; congr 1; omega
+    rw [htt]
+    by_cases he : sent + k = n
+    · have he' : (sent + k == n) = true := by simp [he]
+      simp only [he', if_true]
+      refine ⟨rfl, rfl, ?_, ?_, ?_, ?_, ?_, ?_⟩
+      · apply sem_of_take _ _ _ _ _ _ hi.ci (by omega) (by omega)
+        have h2 : min k d.length = k := by omega
+        have h3 : min k (n - sent) = k := by omega
+        simp [Sink.core, hp, stepU, h2, h3, hn, he, clientEof, cEof, List.take_take]
+      · simp [Sink.core, CI, clientEof]
+      · simp [hnf, clientEof]
+      · simp [hf, clientEof]
+      · simp [clientEof]
+      · simp [clientEof]; omega
+    · have he' : (sent + k == n) = false := by simp [he]
+      simp only [he']
+      refine ⟨rfl, rfl, ?_, ?_, ?_, ?_, ?_, ?_⟩
+      · by_cases hk : k = 0
+        · subst hk; simp [Sink.core, hp]
+        · apply sem_of_take _ _ _ _ _ _ hi.ci (by omega) (by omega)
+          have h2 : min k d.length = k := by omega
+          have h3 : min k (n - sent) = k := by omega
+          simp [Sink.core, hp, stepU, h2, h3, hn, he, List.take_take]
+      · simp [Sink.core, CI]
+      · simp [hnf]
+      · simp [hf]
+      · simp
+      · simp; omega
+
+theorem write_post (s : Sink) (d : Bytes) (hi : Inv s) (hd : d ≠ []) : WritePost s d (s.write d) := by
+  cases hp : s.phase with
+  | idle => exact write_idle s d hi hd hp
+  | waitingResponse buf => exact write_waiting s d hi hd buf hp
+  | nonEncoded len sent =>
+    cases len with
+    | none => exact write_nonEncodedNone s d hi hd sent hp
+    | some n => exact write_nonEncodedSome s d hi hd n sent hp
+  | chunkPrefix buf => exact write_chunkPrefix s d hi hd buf hp
+  | chunkBody rem => exact write_chunkBody s d hi hd rem hp
+  | chunkSuffix buf t => exact write_chunkSuffix s d hi hd buf t hp
+
+set_option linter.unusedSimpArgs false
+
+theorem D_idle (ver : Ver) (method : Bytes) (c : Core) (d : Bytes) (h : c.phase = .idle) :
+    D ver method c d = c := by
+  by_cases hd : d = []
+  · subst hd; exact D_nil ..
+  · have hci : CI c := by simp [CI, h]
+    rw [D_step _ _ _ _ hci hd]
+    obtain ⟨p, cl⟩ := c
+    simp only at h; subst h
+    simp [stepU, D_nil]
+
+theorem waitWritable_spec (s : Sink) (h : s.fakeUnsent = true ∨ s.phase ≠ .idle) :
+    s.waitWritable = ({ s with fakeUnsent := false }, true) := by
+  unfold Sink.waitWritable
+  cases hf : s.fakeUnsent
+  · have hp : s.phase ≠ .idle := by simpa [hf] using h
+    have : ({ s with fakeUnsent := false } : Sink) = s := by cases s; simp_all
+    rw [this]
+    cases hph : s.phase <;> simp_all
+  · simp
+
+/-- **back-pressure does not matter**: the pipe's loop on one segment, whatever the client-side sink
+accepts per call, leaves what the unthrottled parser leaves -/
+theorem offerLoop_spec : ∀ (fuel : Nat) (s : Sink) (d : Bytes), Inv s → d ≠ [] →
+    d.length + s.quotas.length < fuel →
+    (offerLoop fuel s d).core = D s.ver s.method s.core d ∧ Inv (offerLoop fuel s d) ∧
+      (offerLoop fuel s d).ver = s.ver ∧ (offerLoop fuel s d).method = s.method := by
+  intro fuel
+  induction fuel with
+  | zero => intro s d _ _ h; omega
+  | succ fuel ih =>
+    intro s d hi hd hfuel
+    rw [offerLoop]
+    by_cases hfail : s.failed = true
+    · rw [if_pos hfail]
+      refine ⟨?_, hi, rfl, rfl⟩
+      rw [D_idle]; simpa [Sink.core] using hi.dead hfail
+    · rw [if_neg hfail]
+      have wp := write_post s d hi hd
+      generalize s.write d = r at wp
+      obtain ⟨s', u⟩ := r
+      simp only [Bool.false_eq_true, if_false]
+      by_cases hstop : (s'.failed || u.isEmpty) = true
+      · simp only [hstop, if_true]
+        have hu : u = [] := by
+          rcases Bool.or_eq_true _ _ |>.mp hstop with h | h
+          · exact (wp.dead h).2
+          · simpa using h
+        have hsem := wp.sem
+        simp only [hu, D_nil] at hsem
+        exact ⟨hsem, ⟨wp.flag hu, wp.ci, fun h => (wp.dead h).1⟩, wp.ver, wp.method⟩
+      · simp only [hstop]
+        have hnf : s'.failed = false := by cases h : s'.failed <;> simp_all
+        have hu : u ≠ [] := by intro h; simp [h] at hstop
+        rw [waitWritable_spec s' (wp.go hu)]
+        simp only [Bool.not_true, Bool.false_eq_true, if_false]
+        have hi' : Inv { s' with fakeUnsent := false } :=
+          ⟨rfl, wp.ci, fun h => by simp [hnf] at h⟩
+        have hfuel' : u.length + ({ s' with fakeUnsent := false } : Sink).quotas.length < fuel := by
+          have := wp.fuel; simp only at this ⊢; omega
+        obtain ⟨h1, h2, h3, h4⟩ := ih _ u hi' hu hfuel'
+        refine ⟨?_, h2, h3.trans wp.ver, h4.trans wp.method⟩
+        rw [h1]
+        have := wp.sem
+        simp only [Sink.core] at this ⊢
+        rw [← this, wp.ver, wp.method]
+
+theorem offer_spec (s : Sink) (seg : Bytes) (hi : Inv s) :
+    (offer s seg).core = D s.ver s.method s.core seg ∧ Inv (offer s seg) ∧
+      (offer s seg).ver = s.ver ∧ (offer s seg).method = s.method := by
+  unfold offer
+  cases seg with
+  | nil => simp [D_nil, hi]
+  | cons x r =>
+    simp only [List.isEmpty_cons, Bool.false_eq_true, if_false]
+    exact offerLoop_spec _ s (x :: r) hi (by simp) (by omega)
+
+/-- **segmentation does not matter**: feeding the segments one after the other is parsing their concatenation -/
+theorem feed_spec : ∀ (segs : List Bytes) (s : Sink), Inv s →
+    (feed s segs).core = D s.ver s.method s.core segs.flatten ∧ Inv (feed s segs) ∧
+      (feed s segs).ver = s.ver ∧ (feed s segs).method = s.method := by
+  intro segs
+  induction segs with
+  | nil => intro s hi; simp [feed, D_nil, hi]
+  | cons seg segs ih =>
+    intro s hi
+    obtain ⟨h1, h2, h3, h4⟩ := offer_spec s seg hi
+    obtain ⟨g1, g2, g3, g4⟩ := ih (offer s seg) h2
+    simp only [feed, List.foldl_cons, List.flatten_cons] at g1 g2 g3 g4 ⊢
+    refine ⟨?_, g2, g3.trans h3, g4.trans h4⟩
+    rw [g1, h1, h3, h4]
+    exact D_append _ _ _ _ _ _ (Nat.le_refl _) hi.ci
+
+theorem Inv_init (ver : Ver) (method : Bytes) (quotas : List Nat) : Inv (Sink.init ver method quotas) :=
+  ⟨rfl, by simp [Sink.init, Sink.core, CI, headEnd], by simp [Sink.init]⟩
+
+def Core.init : Core := ⟨.waitingResponse [], {}⟩
+
+theorem runSink_core (ver : Ver) (method : Bytes) (quotas : List Nat) (segs : List Bytes) :
+    (feed (Sink.init ver method quotas) segs).core = D ver method Core.init segs.flatten ∧
+      Inv (feed (Sink.init ver method quotas) segs) :=
+  ⟨(feed_spec segs _ (Inv_init ver method quotas)).1, (feed_spec segs _ (Inv_init ver method quotas)).2.1⟩
+
+/-- what the origin closing shows the client, from the parser state alone -/
+def eofC (c : Core) : Client :=
+  match c.phase with
+  | .idle => c.client
+  | .waitingResponse _ => { c.client with bad := true }
+  | _ => cEof c.client
+
+theorem eof_client (s : Sink) (hi : Inv s) : s.eof.client = eofC s.core := by
+  unfold Sink.eof
+  by_cases hf : s.failed = true
+  · have := hi.dead hf
+    simp [hf, eofC, Sink.core, this]
+  · rw [if_neg hf]
+    cases hp : s.phase <;> simp [eofC, Sink.core, hp, clientEof, cEof]
+
+set_option linter.unusedSimpArgs false
+
+theorem stepU_body (ver : Ver) (method : Bytes) (c : Core) (d : Bytes) :
+    c.client.body <+: (stepU ver method c d).1.client.body := by
+  obtain ⟨phase, cl⟩ := c
+  cases phase with
+  | idle => simp [stepU]
+  | waitingResponse buf =>
+    simp only [stepU]
+    split
+    · simp
+    · split
+      · simp
+      · split
+        · simp
+        · split
+          · split <;> simp
+          · simp
+  | nonEncoded len sent =>
+    cases len <;> simp only [stepU]
+    · simp
+    · split
+      · simp
+      · simp only; split <;> simp [cEof]
+  | chunkPrefix buf =>
+    simp only [stepU]
+    split <;> simp
+  | chunkBody r => simp [stepU]
+  | chunkSuffix buf t =>
+    simp only [stepU]
+    split
+    · simp
+    · split
+      · simp
+      · split <;> simp [cEof]
+
+theorem D_body (ver : Ver) (method : Bytes) : ∀ (n : Nat) (c : Core) (d : Bytes), d.length ≤ n → CI c →
+    c.client.body <+: (D ver method c d).client.body := by
+  intro n
+  induction n with
+  | zero => intro c d hd h; cases d with
+    | nil => rw [D_nil]; exact List.prefix_refl _
+    | cons _ _ => simp at hd
+  | succ n ih =>
+    intro c d hd h
+    by_cases hd' : d = []
+    · subst hd'; rw [D_nil]; exact List.prefix_refl _
+    · rw [D_step _ _ _ _ h hd']
+      have := stepU_shrink ver method c d h hd'
+      exact (stepU_body ver method c d).trans (ih _ _ (by omega) (stepU_CI _ _ _ _ h))
+
+theorem feed_body (s : Sink) (hi : Inv s) (more : List Bytes) :
+    s.client.body <+: (feed s more).client.body := by
+  have h := (feed_spec more s hi).1
+  have h2 := D_body s.ver s.method _ s.core more.flatten (Nat.le_refl _) hi.ci
+  rw [← h] at h2
+  exact h2
+
+set_option linter.unusedSimpArgs false
+
+/-! ## the encoders parse back -/
+
+theorem hexDigitVal_enc : ∀ d, d < 16 → hexDigitVal (if d < 10 then 48 + d else 87 + d) = some d := by
+  decide
+
+theorem hexDigits_parse : ∀ (fuel m n : Nat), n < 16 ^ m → 1 ≤ m → m ≤ fuel →
+    ∃ len, 1 ≤ len ∧ len ≤ m ∧ (hexDigits fuel n).length = len ∧
+      ∀ (k sz pos : Nat) (tail : Bytes), k + len ≤ 16 →
+        chunkDigits k sz pos (hexDigits fuel n ++ tail) = chunkDigits (k + len) (sz * 16 ^ len + n) (pos + len) tail := by
+  intro fuel
+  induction fuel with
+  | zero => intro m n _ h1 h2; omega
+  | succ fuel ih =>
+    intro m n hn h1 h2
+    have hd : n % 16 < 16 := Nat.mod_lt _ (by omega)
+    have hv := hexDigitVal_enc _ hd
+    by_cases hq : n / 16 = 0
+    · refine ⟨1, by omega, h1, by simp [hexDigits, hq], ?_⟩
+      intro k sz pos tail hk
+      have hk' : ¬ k ≥ 16 := by omega
+      have e : sz * 16 ^ 1 + n = sz * 16 + n % 16 := by omega
+      rw [e]
+      simp only [hexDigits, hq, beq_self_eq_true, if_true, List.singleton_append, chunkDigits_cons, hv, hk', if_false]
+    · have hm : 2 ≤ m := by
+        rcases Nat.lt_or_ge m 2 with h | h
+        · have : m = 1 := by omega
+          subst this; simp at hn; omega
+        · exact h
+      have hn' : n / 16 < 16 ^ (m - 1) := by
+        rw [Nat.div_lt_iff_lt_mul (by omega), ← Nat.pow_succ]
+        have : m - 1 + 1 = m := by omega
+        show n < 16 ^ (m - 1 + 1)
+        rwa [this]
+      obtain ⟨len, hl1, hl2, hl3, hl4⟩ := ih (m - 1) (n / 16) hn' (by omega) (by omega)
+      refine ⟨len + 1, by omega, by omega, by simp [hexDigits, hq, hl3], ?_⟩
+      intro k sz pos tail hk
+      have hk' : ¬ k + len ≥ 16 := by omega
+      have hq' : (n / 16 == 0) = false := by simpa using hq
+      simp only [hexDigits, hq', Bool.false_eq_true, if_false, List.append_assoc, List.singleton_append]
+      rw [hl4 k sz pos _ (by omega), chunkDigits_cons]
+      simp only [hv, hk', if_false]
+      have e : (sz * 16 ^ len + n / 16) * 16 + n % 16 = sz * 16 ^ (len + 1) + n := by
+        rw [Nat.pow_succ, ← Nat.mul_assoc]
+        generalize sz * 16 ^ len = Y
+        omega
+      rw [e, Nat.add_assoc, Nat.add_assoc]
+
+theorem chunkLineRest_ext (size : Nat) : ∀ (ext : Bytes) (pos : Nat) (rest : Bytes), 13 ∉ ext →
+    chunkLineRest size pos true (ext ++ 13 :: 10 :: rest) = .complete (pos + ext.length + 2) size := by
+  intro ext
+  induction ext with
+  | nil => intro pos rest _; simp [chunkLineRest]
+  | cons c r ih =>
+    intro pos rest h
+    simp only [List.mem_cons, not_or] at h
+    have hc : ¬ (c == 13) = true := by simpa using fun e => h.1 e.symm
+    rw [List.cons_append, chunkLineRest_cons_ne _ _ _ _ _ hc]
+    simp only [if_true]
+    rw [ih _ _ h.2]
+    simp; omega
+
+/-- the size line of `encodeChunk` -/
+def chunkLine (n : Nat) (ext : Bytes) : Bytes :=
+  toHexBytes n ++ (if ext.isEmpty then [] else 59 :: ext) ++ [13, 10]
+
+theorem parseChunkSize_chunkLine (n : Nat) (ext rest : Bytes) (hn : n < 16 ^ 16) (he : 13 ∉ ext) :
+    parseChunkSize (chunkLine n ext ++ rest) = .complete (chunkLine n ext).length n := by
+  obtain ⟨len, hl1, hl2, hl3, hl4⟩ := hexDigits_parse 17 16 n hn (by omega) (by omega)
+  unfold parseChunkSize chunkLine toHexBytes
+  simp only [List.append_assoc]
+  rw [hl4 0 0 0 _ (by omega)]
+  simp only [Nat.zero_mul, Nat.zero_add, List.length_append, hl3]
+  have hk : (len == 0) = false := by simpa using (by omega : len ≠ 0)
+  cases ext with
+  | nil =>
+    simp [chunkDigits_cons, hexDigitVal, hk, chunkLineRest]
+  | cons e es =>
+    simp only [List.isEmpty_cons, Bool.false_eq_true, if_false, List.cons_append, chunkDigits_cons]
+    have h59 : hexDigitVal 59 = none := by decide
+    simp only [h59, hk, Bool.false_eq_true, if_false]
+    rw [chunkLineRest_cons_ne _ _ _ _ _ (by decide)]
+    simp only [Bool.false_eq_true, if_false, beq_self_eq_true, if_true]
+    have := chunkLineRest_ext n (e :: es) (len + 1) rest he
+    simp only [List.cons_append] at this
+    simp only [List.singleton_append, List.cons_append, List.nil_append]
+    rw [this]
+    simp; omega
+
+set_option linter.unusedSimpArgs false
+
+/-! ## what the unthrottled parser does with well-formed streams -/
+
+def phaseOf : Option BodyLen → Phase
+  | some .chunked => .chunkPrefix []
+  | some (.determined n) => .nonEncoded (some n) 0
+  | none => .nonEncoded none 0
+
+theorem D_head (ver : Ver) (method : Bytes) (cl : Client) (hb rest : Bytes) (h : Head)
+    (kept : List (Bytes × Bytes)) (bl : Option BodyLen)
+    (he : headEnd hb = some hb.length) (hp : parseHeadBytes hb = some h)
+    (hc : convertResponse ver method h = some (kept, bl)) (hf : ¬ (100 ≤ h.status ∧ h.status < 200)) :
+    D ver method ⟨.waitingResponse [], cl⟩ (hb ++ rest) =
+      D ver method ⟨phaseOf bl, { cl with head := some (h.status, bl == some (.determined 0), kept) }⟩ rest := by
+  have hl := (headEnd_le _ _ he).2
+  have hne : hb ++ rest ≠ [] := by
+    intro h0; have := congrArg List.length h0; rw [List.length_append, List.length_nil] at this; omega
+  rw [D_step _ _ _ _ (by simp [CI, headEnd]) hne]
+  have h1 := headEnd_append_some hb rest _ he
+  simp only [stepU, List.nil_append, h1, List.take_left', List.drop_left', hp, hc, hf, if_false]
+  rcases bl with _ | _ | _ <;> rfl
+
+theorem D_interim (ver : Ver) (method : Bytes) (cl : Client) (ib rest : Bytes) (h : Head)
+    (he : headEnd ib = some ib.length) (hp : parseHeadBytes ib = some h)
+    (hc : (convertResponse ver method h).isSome) (hf : 100 ≤ h.status ∧ h.status < 200) :
+    D ver method ⟨.waitingResponse [], cl⟩ (ib ++ rest) =
+      D ver method ⟨.waitingResponse [],
+        if ver.isH1 then { cl with interims := cl.interims ++ [h.status] } else cl⟩ rest := by
+  have hl := (headEnd_le _ _ he).2
+  have hne : ib ++ rest ≠ [] := by
+    intro h0; have := congrArg List.length h0; rw [List.length_append, List.length_nil] at this; omega
+  rw [D_step _ _ _ _ (by simp [CI, headEnd]) hne]
+  have h1 := headEnd_append_some ib rest _ he
+  obtain ⟨⟨kept, bl⟩, hc'⟩ := Option.isSome_iff_exists.mp hc
+  simp only [stepU, List.nil_append, h1, List.take_left', List.drop_left', hp, hc', hf, and_self, if_true]
+
+theorem D_nonEncodedNone (ver : Ver) (method : Bytes) (cl : Client) (sent : Nat) (body : Bytes) :
+    D ver method ⟨.nonEncoded none sent, cl⟩ body =
+      ⟨.nonEncoded none (sent + body.length), { cl with body := cl.body ++ body }⟩ := by
+  by_cases hb : body = []
+  · subst hb; simp [D_nil]
+  · rw [D_step _ _ _ _ (by simp [CI]) hb]
+    simp [stepU, D_nil]
+
+theorem D_nonEncodedSome (ver : Ver) (method : Bytes) (cl : Client) (n : Nat) (body : Bytes)
+    (hn : 0 < n) (hl : body.length ≤ n) :
+    D ver method ⟨.nonEncoded (some n) 0, cl⟩ body =
+      ⟨.nonEncoded (some n) body.length,
+        if body.length = n then cEof { cl with body := cl.body ++ body } else { cl with body := cl.body ++ body }⟩ := by
+  by_cases hb : body = []
+  · subst hb
+    have : ¬ 0 = n := by omega
+    simp [D_nil, this]
+  · rw [D_step _ _ _ _ (by simp [CI]) hb]
+    have h0 : ¬ n ≤ 0 := by omega
+    have h1 : min body.length n = body.length := by omega
+    simp [stepU, D_nil, h0, h1]
+
+theorem D_chunk (ver : Ver) (method : Bytes) (cl : Client) (ext payload rest : Bytes)
+    (hp : payload ≠ []) (hl : payload.length < 16 ^ 16) (he : 13 ∉ ext) :
+    D ver method ⟨.chunkPrefix [], cl⟩ (encodeChunk ext payload ++ rest) =
+      D ver method ⟨.chunkPrefix [], { cl with body := cl.body ++ payload }⟩ rest := by
+  have hpl : 0 < payload.length := List.length_pos_iff.mpr hp
+  have henc : encodeChunk ext payload ++ rest = chunkLine payload.length ext ++ (payload ++ 13 :: 10 :: rest) := by
+    simp [encodeChunk, chunkLine]
+  have hps := parseChunkSize_chunkLine payload.length ext (payload ++ 13 :: 10 :: rest) hl he
+  have hne : chunkLine payload.length ext ++ (payload ++ 13 :: 10 :: rest) ≠ [] := by
+    simp [hp]
+  rw [henc, D_step _ _ _ _ (by simp [CI, parseChunkSize, chunkDigits]) hne]
+  have hs0 : ¬ payload.length = 0 := by omega
+  simp only [stepU, List.nil_append, hps, List.drop_left', hs0, if_false]
+  rw [D_step _ _ _ _ (by simp [CI]; omega) (by simp [hp])]
+  have h1 : min (payload ++ 13 :: 10 :: rest).length payload.length = payload.length := by
+    simp
+  simp only [stepU, h1, Nat.sub_self, Nat.lt_irrefl, gt_iff_lt, if_false, List.take_left', List.drop_left']
+  rw [D_step _ _ _ _ (by simp [CI]) (by simp)]
+  simp [stepU]
+
+theorem D_lastChunk (ver : Ver) (method : Bytes) (cl : Client) :
+    D ver method ⟨.chunkPrefix [], cl⟩ (str "0\r\n\r\n") = ⟨.idle, cEof cl⟩ := by
+  have : str "0\r\n\r\n" = [48, 13, 10, 13, 10] := by decide
+  rw [this, D_step _ _ _ _ (by simp [CI, parseChunkSize, chunkDigits]) (by simp)]
+  have hp : parseChunkSize [48, 13, 10, 13, 10] = .complete 3 0 := by decide
+  simp only [stepU, List.nil_append, hp, if_true]
+  rw [D_step _ _ _ _ (by simp [CI]) (by simp)]
+  simp [stepU, D_nil]
+
+theorem D_chunked (ver : Ver) (method : Bytes) : ∀ (chunks : List (Bytes × Bytes)) (cl : Client),
+    (∀ c ∈ chunks, c.2 ≠ [] ∧ c.2.length < 16 ^ 16 ∧ 13 ∉ c.1) →
+    D ver method ⟨.chunkPrefix [], cl⟩ (encodeChunked chunks) =
+      ⟨.idle, cEof { cl with body := cl.body ++ (chunks.map (·.2)).flatten }⟩ := by
+  intro chunks
+  induction chunks with
+  | nil => intro cl _; simp [encodeChunked, D_lastChunk]
+  | cons c cs ih =>
+    intro cl h
+    have hc := h c (by simp)
+    have : encodeChunked (c :: cs) = encodeChunk c.1 c.2 ++ encodeChunked cs := by
+      simp [encodeChunked]
+    rw [this, D_chunk _ _ _ _ _ _ hc.1 hc.2.1 hc.2.2, ih _ (fun x hx => h x (by simp [hx]))]
+    simp
+
+set_option linter.unusedSimpArgs false
+
+/-! ## interim responses already sent do not influence what follows -/
+
+def addI (x : List Nat) (c : Core) : Core := ⟨c.phase, { c.client with interims := x ++ c.client.interims }⟩
+
+theorem stepU_addI (ver : Ver) (method : Bytes) (x : List Nat) (c : Core) (d : Bytes) :
+    stepU ver method (addI x c) d = (addI x (stepU ver method c d).1, (stepU ver method c d).2) := by
+  obtain ⟨phase, cl⟩ := c
+  cases phase with
+  | idle => simp [stepU, addI]
+  | waitingResponse buf =>
+    simp only [stepU, addI]
+    split
+    · simp
+    · split
+      · simp
+      · split
+        · simp
+        · split
+          · split <;> simp
+          · simp
+  | nonEncoded len sent =>
+    cases len <;> simp only [stepU, addI]
+    · split
+      · simp
+      · simp only; split <;> simp [cEof]
+  | chunkPrefix buf =>
+    simp only [stepU, addI]
+    split <;> simp
+  | chunkBody r => simp [stepU, addI]
+  | chunkSuffix buf t =>
+    simp only [stepU, addI]
+    split
+    · simp
+    · split
+      · simp
+      · split <;> simp [cEof]
+
+theorem D_addI (ver : Ver) (method : Bytes) (x : List Nat) : ∀ (n : Nat) (c : Core) (d : Bytes), d.length ≤ n → CI c →
+    D ver method (addI x c) d = addI x (D ver method c d) := by
+  intro n
+  induction n with
+  | zero => intro c d hd h; cases d with
+    | nil => simp [D_nil]
+    | cons _ _ => simp at hd
+  | succ n ih =>
+    intro c d hd h
+    by_cases hd' : d = []
+    · subst hd'; simp [D_nil]
+    · have h' : CI (addI x c) := h
+      rw [D_step _ _ _ _ h hd', D_step _ _ _ _ h' hd', stepU_addI]
+      have := stepU_shrink ver method c d h hd'
+      simp only
+      exact ih _ _ (by omega) (stepU_CI _ _ _ _ h)
+
+set_option linter.unusedSimpArgs false
+
+/-! ## `convert_response` header by header -/
+
+theorem convHeader_kept (ver : Ver) (c : Conv) (h : Bytes × Bytes) :
+    (convHeader ver c h).kept = c.kept ∨
+    ((convHeader ver c h).kept = c.kept ++ [h] ∧ h.1 ∉ c.drop ∧ h.1 ≠ str "connection" ∧
+      (ver.isH1 = false → h.1 ≠ str "transfer-encoding")) := by
+  obtain ⟨n, v⟩ := h
+  simp only [convHeader]
+  split
+  · left; rfl
+  · rename_i hd
+    split
+    · left; rfl
+    · rename_i hcn
+      split
+      · left; rfl
+      · rename_i hte
+        have hd' : n ∉ c.drop := by simpa using hd
+        have hcn' : n ≠ str "connection" := by simpa using hcn
+        have hte' : ver.isH1 = false → n ≠ str "transfer-encoding" := by
+          intro h1 h2; apply hte; simp [h1, h2]
+        split
+        · split
+          · right; exact ⟨rfl, hd', hcn', hte'⟩
+          · left; rfl
+        · right; exact ⟨rfl, hd', hcn', hte'⟩
+
+theorem convHeader_drop (ver : Ver) (c : Conv) (h : Bytes × Bytes) :
+    ∀ y ∈ c.drop, y ∈ (convHeader ver c h).drop := by
+  obtain ⟨n, v⟩ := h
+  intro y hy
+  simp only [convHeader]
+  split
+  · exact hy
+  · split
+    · simp [hy]
+    · split
+      · simp [hy]
+      · split
+        · split <;> exact hy
+        · exact hy
+
+theorem convFold_kept_sublist (ver : Ver) : ∀ (l : List (Bytes × Bytes)) (c : Conv),
+    ∃ k, (l.foldl (convHeader ver) c).kept = c.kept ++ k ∧ k.Sublist l := by
+  intro l
+  induction l with
+  | nil => intro c; exact ⟨[], by simp⟩
+  | cons h t ih =>
+    intro c
+    obtain ⟨k, hk1, hk2⟩ := ih (convHeader ver c h)
+    rw [List.foldl_cons, hk1]
+    rcases convHeader_kept ver c h with h1 | ⟨h1, _⟩
+    · exact ⟨k, by rw [h1], hk2.cons _⟩
+    · exact ⟨h :: k, by rw [h1]; simp, hk2.cons_cons _⟩
+
+/-- what never gets into `kept` -/
+def KeptOk (ver : Ver) (c : Conv) : Prop :=
+  (str "proxy-connection" ∈ c.drop ∧ str "keep-alive" ∈ c.drop ∧ str "upgrade" ∈ c.drop) ∧
+  ∀ x ∈ c.kept, x.1 ≠ str "connection" ∧ x.1 ≠ str "proxy-connection" ∧ x.1 ≠ str "keep-alive" ∧
+    x.1 ≠ str "upgrade" ∧ (ver.isH1 = false → x.1 ≠ str "transfer-encoding")
+
+theorem convFold_keptOk (ver : Ver) : ∀ (l : List (Bytes × Bytes)) (c : Conv), KeptOk ver c →
+    KeptOk ver (l.foldl (convHeader ver) c) := by
+  intro l
+  induction l with
+  | nil => intro c h; exact h
+  | cons h t ih =>
+    intro c hc
+    rw [List.foldl_cons]
+    apply ih
+    obtain ⟨⟨d1, d2, d3⟩, hk⟩ := hc
+    refine ⟨⟨convHeader_drop _ _ _ _ d1, convHeader_drop _ _ _ _ d2, convHeader_drop _ _ _ _ d3⟩, ?_⟩
+    rcases convHeader_kept ver c h with h1 | ⟨h1, h2, h3, h4⟩
+    · rw [h1]; exact hk
+    · rw [h1]
+      intro x hx
+      rcases List.mem_append.mp hx with hx | hx
+      · exact hk x hx
+      · simp only [List.mem_singleton] at hx
+        subst hx
+        refine ⟨h3, ?_, ?_, ?_, h4⟩
+        · intro e; rw [e] at h2; exact h2 d1
+        · intro e; rw [e] at h2; exact h2 d2
+        · intro e; rw [e] at h2; exact h2 d3
+
+theorem convHeader_kept_mono (ver : Ver) (c : Conv) (h x : Bytes × Bytes) (hx : x ∈ c.kept) :
+    x ∈ (convHeader ver c h).kept := by
+  rcases convHeader_kept ver c h with h1 | ⟨h1, _⟩ <;> rw [h1]
+  · exact hx
+  · exact List.mem_append_left _ hx
+
+theorem convHeader_notDropped (ver : Ver) (c : Conv) (h : Bytes × Bytes) (n : Bytes)
+    (hn : n ∉ c.drop) (h2 : n ≠ str "transfer-encoding") (h3 : n ≠ str "content-length")
+    (h4 : h.1 = str "connection" → n ∉ connectionTokens h.2) :
+    n ∉ (convHeader ver c h).drop := by
+  obtain ⟨m, v⟩ := h
+  simp only [convHeader]
+  split
+  · exact hn
+  · split
+    · rename_i hc
+      have : m = str "connection" := by simpa using hc
+      simp only [List.mem_append, not_or]
+      exact ⟨hn, h4 this⟩
+    · split
+      · simp [hn, h2, h3]
+      · split
+        · split <;> exact hn
+        · exact hn
+
+theorem convHeader_keeps (ver : Ver) (c : Conv) (x : Bytes × Bytes)
+    (hn : x.1 ∉ c.drop) (h1 : x.1 ≠ str "connection") (h2 : x.1 ≠ str "transfer-encoding")
+    (h3 : x.1 ≠ str "content-length") :
+    x ∈ (convHeader ver c x).kept := by
+  obtain ⟨m, v⟩ := x
+  simp only at hn h1 h2 h3
+  simp [convHeader, hn, h1, h2, h3]
+
+theorem convFold_keeps (ver : Ver) (x : Bytes × Bytes) (h1 : x.1 ≠ str "connection")
+    (h2 : x.1 ≠ str "transfer-encoding") (h3 : x.1 ≠ str "content-length") :
+    ∀ (l : List (Bytes × Bytes)) (c : Conv), x.1 ∉ c.drop →
+      (∀ h ∈ l, h.1 = str "connection" → x.1 ∉ connectionTokens h.2) →
+      (x ∈ c.kept ∨ x ∈ l) → x ∈ (l.foldl (convHeader ver) c).kept := by
+  intro l
+  induction l with
+  | nil => intro c _ _ hx; simpa using hx
+  | cons h t ih =>
+    intro c hd h4 hx
+    rw [List.foldl_cons]
+    have hd' := convHeader_notDropped ver c h x.1 hd h2 h3 (h4 h (by simp))
+    apply ih _ hd' (fun y hy => h4 y (by simp [hy]))
+    rcases hx with hx | hx
+    · left; exact convHeader_kept_mono ver c h x hx
+    · rcases List.mem_cons.mp hx with rfl | hx
+      · left; exact convHeader_keeps ver c x hd h1 h2 h3
+      · right; exact hx
+
+theorem convertResponse_kept (ver : Ver) (method : Bytes) (h : Head) (kept : List (Bytes × Bytes))
+    (bl : Option BodyLen) (hc : convertResponse ver method h = some (kept, bl)) :
+    kept = (h.headers.foldl (convHeader ver) {}).kept := by
+  unfold convertResponse at hc
+  simp only at hc
+  split at hc
+  · simp at hc
+  · simp only [Option.some.injEq, Prod.mk.injEq] at hc
+    exact hc.1.symm
+
+set_option linter.unusedSimpArgs false
+
+/-! ## `serialize_request` header by header -/
+
+def keepReq (h : Bytes × Bytes) : Bool := h.1 != str "proxy-authorization" && h.1 != str "proxy-connection"
+
+def reqLine (authority : Bytes) (h : Bytes × Bytes) : Bytes :=
+  if h.1 == str "host" then str "host: " ++ authority ++ [13, 10] else h.1 ++ str ": " ++ h.2 ++ [13, 10]
+
+theorem serHeader_refused (a : Bytes) (s : Ser) (h : Bytes × Bytes) (hr : s.refused = true) :
+    (serHeader a s h).refused = true := by
+  obtain ⟨n, v⟩ := h
+  simp only [serHeader]
+  split
+  · exact hr
+  · split
+    · split <;> simp [hr]
+    · simp only
+      split
+      · split
+        · split <;> simp [hr]
+        · simp
+        · exact hr
+      · split <;> simp [hr]
+
+theorem serFold_refused (a : Bytes) : ∀ (l : List (Bytes × Bytes)) (s : Ser), s.refused = true →
+    (l.foldl (serHeader a) s).refused = true := by
+  intro l
+  induction l with
+  | nil => intro s h; exact h
+  | cons h t ih => intro s hs; exact ih _ (serHeader_refused a s h hs)
+
+theorem serHeader_step (a : Bytes) (s : Ser) (h : Bytes × Bytes) (hr : (serHeader a s h).refused = false) :
+    if keepReq h then
+      (serHeader a s h).out = s.out ++ reqLine a h ∧
+      (serHeader a s h).hostInserted = (s.hostInserted || h.1 == str "host")
+    else serHeader a s h = s := by
+  obtain ⟨n, v⟩ := h
+  by_cases hk : n == str "proxy-authorization" || n == str "proxy-connection"
+  · have : keepReq (n, v) = false := by
+      simp only [keepReq, bne, ← Bool.not_or, hk, Bool.not_true]
+    simp [this, serHeader, hk]
+  · have hk' : keepReq (n, v) = true := by
+      simp only [keepReq, bne, ← Bool.not_or]
+      simpa using hk
+    rw [if_pos hk']
+    by_cases hh : n == str "host"
+    · have hne : s.hostInserted = false := by
+        cases hi : s.hostInserted
+        · rfl
+        · simp [serHeader, hk, hh, hi] at hr
+      simp [serHeader, hk, hh, hne, reqLine]
+    · simp only [serHeader, hk, hh, reqLine, Bool.false_eq_true, if_false, Bool.or_false]
+      constructor
+      · simp only [List.append_assoc, List.append_cancel_right_eq]
+        split
+        · split
+          · split <;> rfl
+          · rfl
+          · rfl
+        · split <;> rfl
+      · split
+        · split
+          · split <;> rfl
+          · rfl
+          · rfl
+        · split <;> rfl
+
+theorem serFold_out (a : Bytes) : ∀ (l : List (Bytes × Bytes)) (s : Ser),
+    (l.foldl (serHeader a) s).refused = false →
+    (l.foldl (serHeader a) s).out = s.out ++ ((l.filter keepReq).map (reqLine a)).flatten ∧
+    (l.foldl (serHeader a) s).hostInserted = (s.hostInserted || (l.filter keepReq).any (·.1 == str "host")) := by
+  intro l
+  induction l with
+  | nil => intro s _; simp
+  | cons h t ih =>
+    intro s hr
+    rw [List.foldl_cons] at hr ⊢
+    have hr' : (serHeader a s h).refused = false := by
+      cases hx : (serHeader a s h).refused
+      · rfl
+      · rw [serFold_refused a t _ hx] at hr; exact absurd hr (by simp)
+    obtain ⟨i1, i2⟩ := ih _ hr
+    have hs := serHeader_step a s h hr'
+    by_cases hk : keepReq h = true
+    · rw [if_pos hk] at hs
+      rw [i1, i2, hs.1, hs.2]
+      simp [List.filter_cons, hk, Bool.or_assoc]
+    · rw [if_neg hk] at hs
+      rw [i1, i2, hs]
+      simp [List.filter_cons, hk]
+
+theorem serializeRequest_bytes (r : Request) (bytes : Bytes) (bl : BodyLen) (h : serializeRequest r = .ok bytes bl) :
+    (r.headers.foldl (serHeader r.authority) {}).refused = false ∧
+    bytes = r.method ++ [32] ++ (if r.method = str "OPTIONS" then str "*" else r.target) ++ str " HTTP/" ++
+      versionDigits r.ver ++ [13, 10] ++ (r.headers.foldl (serHeader r.authority) {}).out ++
+      (if (r.headers.foldl (serHeader r.authority) {}).hostInserted then [] else str "host: " ++ r.authority ++ [13, 10]) ++
+      [13, 10] ∧
+    bl = ((if isHead r.method then some (.determined 0)
+            else match (r.headers.foldl (serHeader r.authority) {}).bodyLen with
+              | some b => some b
+              | none => if r.ver.isH1 then none else some .chunked).getD (.determined 0)) := by
+  unfold serializeRequest at h
+  simp only at h
+  split at h
+  · simp at h
+  · rename_i hr
+    simp only [SerRes.ok.injEq] at h
+    refine ⟨by simpa using hr, ?_, h.2.symm⟩
+    rw [← h.1]
+    simp only [beq_iff_eq]
+
+set_option linter.unusedSimpArgs false
+
+theorem reqLine_crlf (a : Bytes) (h : Bytes × Bytes) : ∃ q, reqLine a h = q ++ [13, 10] := by
+  unfold reqLine
+  split
+  · exact ⟨str "host: " ++ a, by simp⟩
+  · exact ⟨h.1 ++ str ": " ++ h.2, by simp⟩
+
+theorem reqLines_crlf (a : Bytes) (l : List (Bytes × Bytes)) :
+    (l.map (reqLine a)).flatten = [] ∨ ∃ p, (l.map (reqLine a)).flatten = p ++ [13, 10] := by
+  rcases List.eq_nil_or_concat l with rfl | ⟨l', x, rfl⟩
+  · left; rfl
+  · right
+    obtain ⟨q, hq⟩ := reqLine_crlf a x
+    exact ⟨(l'.map (reqLine a)).flatten ++ q, by simp [hq]⟩
+
+theorem serializeRequest_crlf (r : Request) (bytes : Bytes) (bl : BodyLen) (h : serializeRequest r = .ok bytes bl) :
+    ∃ p, bytes = p ++ [13, 10, 13, 10] := by
+  obtain ⟨hr, hb, _⟩ := serializeRequest_bytes r bytes bl h
+  obtain ⟨o1, _⟩ := serFold_out r.authority r.headers {} hr
+  generalize (r.method ++ [32] ++ (if r.method = str "OPTIONS" then str "*" else r.target) ++ str " HTTP/" ++
+    versionDigits r.ver) = L at hb
+  have o1' : (r.headers.foldl (serHeader r.authority) {}).out =
+      ((r.headers.filter keepReq).map (reqLine r.authority)).flatten := by rw [o1]; rfl
+  rw [o1'] at hb
+  cases hhi : (r.headers.foldl (serHeader r.authority) {}).hostInserted
+  · refine ⟨L ++ [13, 10] ++ ((r.headers.filter keepReq).map (reqLine r.authority)).flatten ++ str "host: " ++ r.authority, ?_⟩
+    rw [hb, hhi]; simp
+  · rw [hhi] at hb
+    rcases reqLines_crlf r.authority (r.headers.filter keepReq) with h0 | ⟨p, hp⟩
+    · rw [h0] at hb; exact ⟨L, by rw [hb]; simp⟩
+    · rw [hp] at hb; exact ⟨L ++ [13, 10] ++ p, by rw [hb]; simp⟩
+
+theorem forwardBody_determined (n : Nat) : ∀ (chunks : List Bytes) (sent : Nat),
+    forwardBody (.determined n) sent chunks = chunks.flatten.take (n - sent) := by
+  intro chunks
+  induction chunks with
+  | nil => intro sent; simp [forwardBody]
+  | cons c rest ih =>
+    intro sent
+    simp only [forwardBody]
+    split
+    · rw [ih, List.flatten_cons, List.take_append]
+      congr 1
+      · rw [List.take_eq_take_iff]; omega
+      · congr 1; omega
+    · have : n - sent = 0 := by omega
+      simp [this]
+
+/-- how `serHeader` moves the body length, when it does not refuse and sees no chunked `Transfer-Encoding` -/
+theorem serHeader_bodyLen (a : Bytes) (s : Ser) (h : Bytes × Bytes) (hr : (serHeader a s h).refused = false)
+    (hte : h.1 = str "transfer-encoding" → h.2 ≠ str "chunked") :
+    if h.1 = str "content-length" then
+      (s.bodyLen = none ∧ ∃ k, parseDec h.2 = some k ∧ (serHeader a s h).bodyLen = some (.determined k)) ∨
+      (s.bodyLen = some .chunked ∧ (serHeader a s h).bodyLen = some .chunked)
+    else (serHeader a s h).bodyLen = s.bodyLen := by
+  obtain ⟨n, v⟩ := h
+  simp only at hte
+  by_cases hcl : n = str "content-length"
+  · rw [if_pos hcl]
+    subst hcl
+    have e1 : (str "content-length" == str "proxy-authorization" || str "content-length" == str "proxy-connection") = false := by decide
+    have e2 : (str "content-length" == str "host") = false := by decide
+    simp only [serHeader, e1, e2, Bool.false_eq_true, if_false, beq_self_eq_true, if_true] at hr ⊢
+    cases hb : s.bodyLen with
+    | none =>
+      left
+      refine ⟨rfl, ?_⟩
+      simp only [hb] at hr ⊢
+      cases hp : parseDec v with
+      | none => simp [hp] at hr
+      | some k => exact ⟨k, rfl, rfl⟩
+    | some b =>
+      cases b with
+      | determined j => simp [hb] at hr
+      | chunked => right; simp [hb]
+  · rw [if_neg hcl]
+    have hcl' : (n == str "content-length") = false := by simpa using hcl
+    have hte' : (n == str "transfer-encoding" && v == str "chunked") = false := by
+      cases h1 : (n == str "transfer-encoding")
+      · rfl
+      · have := hte (by simpa using h1); simpa using this
+    simp only [serHeader, hcl', hte', Bool.false_eq_true, if_false]
+    split
+    · rfl
+    · split
+      · split <;> rfl
+      · rfl
+
+theorem serFold_bodyLen (a : Bytes) : ∀ (l : List (Bytes × Bytes)) (s : Ser),
+    (l.foldl (serHeader a) s).refused = false →
+    (∀ x ∈ l, x.1 = str "transfer-encoding" → x.2 ≠ str "chunked") →
+    s.bodyLen ≠ some .chunked →
+    (∀ j, s.bodyLen = some (.determined j) →
+      (l.foldl (serHeader a) s).bodyLen = some (.determined j) ∧ ∀ x ∈ l, x.1 ≠ str "content-length") ∧
+    (s.bodyLen = none → ∀ v k, (str "content-length", v) ∈ l → parseDec v = some k →
+      (l.foldl (serHeader a) s).bodyLen = some (.determined k)) := by
+  intro l
+  induction l with
+  | nil => intro s _ _ _; simp
+  | cons h t ih =>
+    intro s hr hte hnc
+    rw [List.foldl_cons] at hr ⊢
+    have hr' : (serHeader a s h).refused = false := by
+      cases hx : (serHeader a s h).refused
+      · rfl
+      · rw [serFold_refused a t _ hx] at hr; exact absurd hr (by simp)
+    have hstep := serHeader_bodyLen a s h hr' (hte h (by simp))
+    have hte' : ∀ x ∈ t, x.1 = str "transfer-encoding" → x.2 ≠ str "chunked" := fun x hx => hte x (by simp [hx])
+    by_cases hcl : h.1 = str "content-length"
+    · rw [if_pos hcl] at hstep
+      rcases hstep with ⟨hs0, k', hk', hs'⟩ | ⟨hs0, _⟩
+      · have ih' := ih (serHeader a s h) hr hte' (by rw [hs']; simp)
+        constructor
+        · intro j hj; rw [hs0] at hj; simp at hj
+        · intro _ v k hmem hk
+          have hrest := (ih'.1 k' hs')
+          rcases List.mem_cons.mp hmem with heq | hmem
+          · have : h.2 = v := by rw [← heq]
+            rw [this, hk] at hk'
+            simp only [Option.some.injEq] at hk'
+            rw [hk']; exact hrest.1
+          · exact absurd rfl (hrest.2 _ hmem)
+      · exact absurd hs0 hnc
+    · rw [if_neg hcl] at hstep
+      have ih' := ih (serHeader a s h) hr hte' (by rw [hstep]; exact hnc)
+      constructor
+      · intro j hj
+        have := ih'.1 j (by rw [hstep]; exact hj)
+        refine ⟨this.1, ?_⟩
+        intro x hx
+        rcases List.mem_cons.mp hx with rfl | hx
+        · exact hcl
+        · exact this.2 x hx
+      · intro hn v k hmem hk
+        rcases List.mem_cons.mp hmem with heq | hmem
+        · exact absurd (by rw [← heq]) hcl
+        · exact ih'.2 (by rw [hstep]; exact hn) v k hmem hk
 
 end TT.Fwd
